@@ -1,29 +1,15 @@
-import IOptProofs.GklsClass
+import IOptProofs.GklsCert2a
+import IOptProofs.GklsCert2b
 import Mathlib.Tactic.IntervalCases
 /-!
-# Kernel-decided certificates of the 100 regenerated GKLS data sets of dimension 2
-
-`Gkls.Cert 2 k` = well-formedness `WF` + class clauses `ClassOK` + identity (`dim = 2`, `number = k`).
-One lemma per block of ten function numbers (`decide +kernel`: exact integer arithmetic in the kernel).
+# All 100 regenerated GKLS data sets of dimension 2 pass the certificate
 -/
 
 namespace Gkls
-set_option maxRecDepth 100000
-
-theorem cert2_0 : ∀ k ∈ List.range' 1 10, Cert 2 k = true := by decide +kernel
-theorem cert2_1 : ∀ k ∈ List.range' 11 10, Cert 2 k = true := by decide +kernel
-theorem cert2_2 : ∀ k ∈ List.range' 21 10, Cert 2 k = true := by decide +kernel
-theorem cert2_3 : ∀ k ∈ List.range' 31 10, Cert 2 k = true := by decide +kernel
-theorem cert2_4 : ∀ k ∈ List.range' 41 10, Cert 2 k = true := by decide +kernel
-theorem cert2_5 : ∀ k ∈ List.range' 51 10, Cert 2 k = true := by decide +kernel
-theorem cert2_6 : ∀ k ∈ List.range' 61 10, Cert 2 k = true := by decide +kernel
-theorem cert2_7 : ∀ k ∈ List.range' 71 10, Cert 2 k = true := by decide +kernel
-theorem cert2_8 : ∀ k ∈ List.range' 81 10, Cert 2 k = true := by decide +kernel
-theorem cert2_9 : ∀ k ∈ List.range' 91 10, Cert 2 k = true := by decide +kernel
 
 /-- every data set of dimension 2 passes the certificate -/
 theorem cert2 : ∀ k ∈ List.range' 1 100, Cert 2 k = true := by
-  apply range_blocks
+  apply range_blocks5
   intro b hb
   interval_cases b
   · exact cert2_0
@@ -36,5 +22,15 @@ theorem cert2 : ∀ k ∈ List.range' 1 100, Cert 2 k = true := by
   · exact cert2_7
   · exact cert2_8
   · exact cert2_9
+  · exact cert2_10
+  · exact cert2_11
+  · exact cert2_12
+  · exact cert2_13
+  · exact cert2_14
+  · exact cert2_15
+  · exact cert2_16
+  · exact cert2_17
+  · exact cert2_18
+  · exact cert2_19
 
 end Gkls
